@@ -29,6 +29,7 @@ fn streams(t: Tier) -> Vec<StreamDef> {
         st("small_exhaustive", t.n(65793, 65793, 0, 65793), true),
         st("per_type", t.n(38 * 41 * 8, 38 * 41 * 64, 60, 38 * 41 * 8), true),
         st("big", t.n(320, 8000, 0, 320), false),
+        st("payload_lengths", t.n(40 * 1018, 40 * 1018, 60, 40 * 1018), true),
     ]
 }
 
@@ -46,6 +47,7 @@ fn floors(t: Tier) -> Vec<(String, u64)> {
         ("accepted.data".into(), 1000),
         ("per_type.ok".into(), 1000),
         ("per_type.err".into(), 1000),
+        ("payload_lengths.checked".into(), 40 * 1018),
     ];
     for (a, _, _) in crate::spec::tables::ATTRS.iter() {
         f.push((format!("kind.{}.ok", a), 1));
@@ -130,6 +132,22 @@ pub fn judge(ctx: &mut Ctx, b: &[u8], tag: &str) {
             }
         }
 
+        // accepted control / length-carrying data messages: also at the front of a > 4 GiB buffer
+        if i == ((ctx.idx + 3) % 8) as u8 && ctx.rng.chance(1, 8) {
+            if let (Ok(want), true) = (&spec.result, b.len() >= 4 && b[0] & 0x02 != 0) {
+                let tail = *ctx.rng.pick(&[0x1_0000_0000usize - b.len() + 7, 0x1_0000_0000, 0x1_0000_0011, 1 << 36]);
+                let r2 = exec::decode_msg(b, Some(o), Rk::VirtualTail(tail));
+                ctx.rep.bucket("virtual_4gib_tail");
+                match &r2.out {
+                    Out::Ok(got) if got == want => {}
+                    other => ctx.violate(
+                        format!("C05:accept-mismatch:huge-buffer:{}", other.class()),
+                        format!("the reference accepts ({:?}); with {} zero octets behind the input (which the declared length excludes) the crate gives {}", want, tail, out_str(other)),
+                        J::obj(vec![("input_hex", J::hex(b)), ("virtual_zero_octets_appended", J::U(tail as u64)), ("options", J::s(opts_str(Some(o))))]),
+                    ),
+                }
+            }
+        }
         // non-interference: flip bits the reference did not consult (one option set per input to
         // bound the cost; rotates with the case index)
         if i == (ctx.idx % 8) as u8 && !b.is_empty() && !run.out.abnormal() {
@@ -420,6 +438,35 @@ fn run(ctx: &mut Ctx) {
         "small_exhaustive" => {
             let b = super::c01::small_input(ctx.idx);
             judge(ctx, &b, "small");
+        }
+        "payload_lengths" => {
+            // every attribute (39 assigned + one unassigned) x every payload length 0..=1017: fixed
+            // size kinds must ignore surplus octets at every length, not only short ones
+            let k = (ctx.idx % 40) as usize;
+            let len = (ctx.idx / 40) as usize;
+            let attr = if k < 39 { crate::spec::tables::ATTRS[k].0 } else { 20 };
+            let payload = wire::valid_payload(&mut ctx.rng, attr, len);
+            let mut body = wire::message_type_record(1);
+            body.extend_from_slice(&wire::raw_record(attr, false, 0, &payload, true));
+            let msg = wire::control_around(&body, 1, 2, 3, 4);
+            // one option set per case keeps this at about 40k decodes
+            let o = SOpts::STRICT;
+            let spec = sdec::decode(&msg, o);
+            let run = exec::decode_msg(&msg, Some(o), Rk::Slice);
+            let mut key = vec![b'L', attr as u8, (len >> 8) as u8, len as u8];
+            key.extend_from_slice(&payload[..payload.len().min(8)]);
+            ctx.rep.case(&key, true);
+            ctx.rep.bucket("payload_lengths.checked");
+            match (&spec.result, &run.out) {
+                (Ok(w), Out::Ok(g)) if w == g => {}
+                (Err(_), Out::Err(_)) => {}
+                (w, g) => ctx.violate(
+                    format!("C05:payload-length:attr{}:{}", attr, g.class()),
+                    format!("attribute {} with a {}-octet payload: reference {}, crate {}", attr, len, if w.is_ok() { "accepts" } else { "rejects" }, out_str(g)),
+                    J::obj(vec![("attribute_type", J::U(attr as u64)), ("payload_octets", J::U(len as u64)), ("input_hex", J::hex(&msg[..msg.len().min(80)]))]),
+                ),
+            }
+            judge_avps(ctx, &msg[12..]);
         }
         "big" => match wire::big_input(&mut ctx.rng) {
             (wire::Big::Msg(b), tag) => {
